@@ -49,7 +49,7 @@ fn props() -> Vec<PropDef> {
 		p!("C03", "exploration", c03, part),
 		p!("C04", "exploration", c04),
 		p!("C05", "exploration", c05),
-		p!("C06", "exploration", c06),
+		p!("C06", "exploration", c06, part),
 		p!("C07", "exploration", c07),
 		p!("C08", "exploration", c08),
 		p!("C09", "fault_enumeration", c09),
